@@ -37,7 +37,12 @@ def run_one(prop, m, keep_output=False):
                            capture_output=True, text=True, timeout=1800)
         viol = [l for l in r.stdout.splitlines() if l.startswith('VIOLATION')]
         exp = m.get('expect', 'violation')
-        ok = (r.returncode == 1 and viol) if exp == 'violation' else (r.returncode == 0 and not viol)
+        if exp == 'violation':
+            ok = r.returncode == 1 and viol
+        elif exp == 'undecided-or-violation':      # the edit uses a construct outside the subset: never a pass
+            ok = r.returncode in (1, 2)
+        else:
+            ok = r.returncode == 0 and not viol
         return dict(name=m['name'], ok=bool(ok), rc=r.returncode, expect=exp, violations=len(viol),
                     first=(viol[0].replace(d, '<scratch>') if viol else ''),
                     confirmed=sum(1 for l in viol if 'no-failing-input-found' not in l),
